@@ -18,7 +18,9 @@
    Crash points of hooks/c07-crashpoints.diff and the number of completed steps:
      badger.commit.afterLogFlush 0   badger.commit.afterBatchFlush 1
      badger.finalize.afterBatchFlush 1   badger.finalize.afterMetaCommit 2
-     badger.prune.afterBatchFlush 1 *)
+     badger.prune.afterBatchFlush 1
+   Prune is ported as it is after repo commit 9d3b657 (tolerant retry); plan_orig keeps the
+   earlier behaviour. *)
 From Verif Require Import Lib.Base NodeDB.Spec NodeDB.Badger.
 
 Record cdb := mkc { c_b : bdb; c_rk : store }.
